@@ -255,6 +255,14 @@ ResampleSpacingOK(v, s2, w, closing) ==
     \E m1 \in SpacingIntervals(v, s2) :
         /\ m1 >= 0
         /\ LET e == SpacingSamples(v, s2, m1) IN SamplesMatch(w, IF closing THEN Append(e, e[1]) ELSE e)
+\* by a spacing that divides the length into k parts up to rounding (the harness passes length / k as a float): k or k - 1
+\* intervals - whichever way the rounding of length / spacing goes - evenly spaced and centred
+SpacingDivSamples(v, k, m1) == LET L2 == 2 * TotalLen(v) IN
+    [j \in 1..(m1 + 1) |-> PointAtR(v, (k - m1) * L2 + 2 * (j - 1) * L2, 2 * k)]
+ResampleSpacingDivOK(v, k, w, closing) ==
+    \E m1 \in {k, k - 1} :
+        /\ m1 >= 1
+        /\ LET e == SpacingDivSamples(v, k, m1) IN SamplesMatch(w, IF closing THEN Append(e, e[1]) ELSE e)
 \* may the construction legitimately fail (fewer than two distinct samples)?
 SpacingMayFail(v, s2, closing) ==
     \E m1 \in SpacingIntervals(v, s2) : m1 >= 0 /\
